@@ -55,7 +55,8 @@ func VerifC04Entry() {
 		compiled, cerr = ProcessProfile(verifProfile, false, nil)
 		v.Assume(cerr == nil)
 	}
-	v.Scope("v")
+	// one data text: whenever it is read, it meets the same stage outcomes
+	v.ScopeShared("v")
 	report, err, panicked := verifCall(ep, compiled, "<<data text>>")
 	decodeErr, flattenErr := v.Flag("v.decode.err"), v.Flag("v.flatten.err")
 	if decodeErr {
@@ -68,6 +69,18 @@ func VerifC04Entry() {
 		v.Assert("C04.no-panic", !panicked)
 		v.Assert("C04.error-returned", panicked || err != nil)
 		v.Assert("C04.no-report", report == "")
+		// ... also when the same unreadable text is submitted again, through any entry point
+		ep2 := v.Choice("entryAgain", 4)
+		if ep2 >= 2 && compiled == nil {
+			var cerr error
+			compiled, cerr = ProcessProfile(verifProfile, false, nil)
+			v.Assume(cerr == nil)
+		}
+		report2, err2, panicked2 := verifCall(ep2, compiled, "<<data text>>")
+		v.Reach("submitted-again")
+		v.Assert("C04.no-panic", !panicked2)
+		v.Assert("C04.error-returned", panicked2 || err2 != nil)
+		v.Assert("C04.no-report", report2 == "")
 	} else if err == nil && !panicked {
 		v.Reach("ok-path")
 		v.Assert("C04.ok-has-report", report != "")
@@ -101,11 +114,27 @@ func VerifC04EntryNative() {
 			panic(cerr)
 		}
 	}
-	report, err, panicked := verifCall(ep, compiled, verifWitnessData(decodeErr, flattenErr))
+	data := verifWitnessData(decodeErr, flattenErr)
+	report, err, panicked := verifCall(ep, compiled, data)
 	if decodeErr || flattenErr {
 		v.Assert("C04.no-panic", !panicked)
 		v.Assert("C04.error-returned", panicked || err != nil)
 		v.Assert("C04.no-report", report == "")
+		ep2 := 0
+		if _, asked := v.ReplayInput("entryAgain"); asked {
+			ep2 = v.ReplayInt("entryAgain")
+		}
+		if ep2 >= 2 && compiled == nil {
+			var cerr error
+			compiled, cerr = ProcessProfile(verifProfile, false, nil)
+			if cerr != nil {
+				panic(cerr)
+			}
+		}
+		report2, err2, panicked2 := verifCall(ep2, compiled, data)
+		v.Assert("C04.no-panic", !panicked2)
+		v.Assert("C04.error-returned", panicked2 || err2 != nil)
+		v.Assert("C04.no-report", report2 == "")
 	}
 }
 
@@ -127,12 +156,16 @@ func VerifC09Equiv() {
 	v.Assert("C09.compiled-eq-source.report", r1 == r2)
 	v.Assert("C09.compiled-eq-source.error", (e1 == nil) == (e2 == nil))
 	v.Assert("C09.compiled-eq-source.panic", p1 == p2)
-	v.Assert("C09.two-compilations", v.RegoNewCount() == 2)
+	// every module handed to the engine in this run is the same module (generated identifiers carry a
+	// process-wide counter: modulo that renumbering) queried the same way - however many times the
+	// implementation chooses to compile it
 	m0, _ := v.RegoNewOption(0, "module.code").(string)
-	m1, _ := v.RegoNewOption(1, "module.code").(string)
-	// generated identifiers carry a process-wide counter; modulo that renumbering the modules are equal
-	v.Assert("C09.same-module", m0 != "" && verifStripDigits(m0) == verifStripDigits(m1))
-	v.Assert("C09.same-query", v.RegoNewOption(0, "query") == v.RegoNewOption(1, "query"))
+	v.Assert("C09.same-module", m0 != "")
+	for k := 1; k < v.RegoNewCount(); k++ {
+		mk, _ := v.RegoNewOption(k, "module.code").(string)
+		v.Assert("C09.same-module", verifStripDigits(m0) == verifStripDigits(mk))
+		v.Assert("C09.same-query", v.RegoNewOption(0, "query") == v.RegoNewOption(k, "query"))
+	}
 }
 
 // VerifC09History: one compiled profile, three calls with arbitrary per-call
@@ -187,6 +220,8 @@ func verifDocFor(scope string, good string) (string, bool) {
 		return "<html><body>" + strings.Repeat("502 Bad Gateway ", 200) + "</body></html>", true
 	case v.ReplayBool("flag:" + scope + ".flatten.err"):
 		return verifFlattenWitness(scope), true
+	case v.ReplayBool("flag:" + scope + ".flatten.empty"):
+		return `{"@context": {"ex": "http://example.org/"}}`, true
 	}
 	return good, true
 }
@@ -369,5 +404,78 @@ func VerifC09EquivNative() {
 	check(verifProfile, `{"@id": "http://x/a", "@type": "http://a.ml/vocabularies/apiContract#EndPoint"}`)
 	for _, d := range verifValueDocs {
 		check(verifValueProfile, d)
+	}
+}
+
+const verifOtherProfile = `#%Validation Profile 1.0
+profile: Other
+warning:
+  - o1
+validations:
+  o1:
+    message: other
+    targetClass: apiContract.EndPoint
+    propertyConstraints:
+      core.name:
+        minCount: 1
+`
+
+// VerifC09TwoProfiles: a compiled profile keeps meaning its own source whatever else is compiled
+// or validated from text afterwards (every stage succeeds; the stubbed engine's answer names the
+// module a query was prepared from).
+func VerifC09TwoProfiles() {
+	v.Faults(false)
+	doc := "<<doc>>"
+	order := v.Choice("order", 3)
+	hA, errA := ProcessProfile(verifProfile, false, nil)
+	v.Assume(errA == nil)
+	var hB *rego.PreparedEvalQuery
+	switch order {
+	case 0: // B compiled after A
+		var errB error
+		hB, errB = ProcessProfile(verifOtherProfile, false, nil)
+		v.Assume(errB == nil)
+	case 1: // B validated from text after A was compiled
+		Validate(verifOtherProfile, doc, false, nil)
+	default: // A compiled twice, B in between
+		ProcessProfile(verifOtherProfile, false, nil)
+		ProcessProfile(verifProfile, false, nil)
+	}
+	rA, eA := ValidateCompiledWithConfiguration(hA, doc, false, nil, c.TestValidationConfiguration{}, c.DefaultReportConfiguration())
+	tA, etA := ValidateWithConfiguration(verifProfile, doc, false, nil, c.TestValidationConfiguration{}, c.DefaultReportConfiguration())
+	v.Reach("validated")
+	v.Assert("C09.compiled-eq-source.after-other-profile", rA == tA && (eA == nil) == (etA == nil) && rA != "")
+	if hB != nil {
+		rB, eB := ValidateCompiledWithConfiguration(hB, doc, false, nil, c.TestValidationConfiguration{}, c.DefaultReportConfiguration())
+		tB, etB := ValidateWithConfiguration(verifOtherProfile, doc, false, nil, c.TestValidationConfiguration{}, c.DefaultReportConfiguration())
+		v.Assert("C09.compiled-eq-source.after-other-profile", rB == tB && (eB == nil) == (etB == nil) && rB != rA)
+	}
+}
+
+// VerifC09TwoProfilesNative: the same with the real engine and a document both profiles object to.
+func VerifC09TwoProfilesNative() {
+	doc := `{"@id": "http://x/a", "@type": "http://a.ml/vocabularies/apiContract#EndPoint"}`
+	order := v.ReplayInt("order")
+	hA, errA := ProcessProfile(verifProfile, false, nil)
+	if errA != nil {
+		panic(errA)
+	}
+	var hB *rego.PreparedEvalQuery
+	switch order {
+	case 0:
+		hB, _ = ProcessProfile(verifOtherProfile, false, nil)
+	case 1:
+		Validate(verifOtherProfile, doc, false, nil)
+	default:
+		ProcessProfile(verifOtherProfile, false, nil)
+		ProcessProfile(verifProfile, false, nil)
+	}
+	rA, eA := ValidateCompiledWithConfiguration(hA, doc, false, nil, c.TestValidationConfiguration{}, c.DefaultReportConfiguration())
+	tA, etA := ValidateWithConfiguration(verifProfile, doc, false, nil, c.TestValidationConfiguration{}, c.DefaultReportConfiguration())
+	v.Assert("C09.compiled-eq-source.after-other-profile", rA == tA && (eA == nil) == (etA == nil) && rA != "")
+	if hB != nil {
+		rB, eB := ValidateCompiledWithConfiguration(hB, doc, false, nil, c.TestValidationConfiguration{}, c.DefaultReportConfiguration())
+		tB, etB := ValidateWithConfiguration(verifOtherProfile, doc, false, nil, c.TestValidationConfiguration{}, c.DefaultReportConfiguration())
+		v.Assert("C09.compiled-eq-source.after-other-profile", rB == tB && (eB == nil) == (etB == nil) && rB != rA)
 	}
 }
